@@ -131,6 +131,14 @@ struct Fw {
     counter: u32,
     foreign: u64,
     lossless: bool,
+    /// when each node was last started (ms)
+    started_ms: Vec<u64>,
+    /// (node, peer address) -> when the node last added a peer under that address
+    session_ms: BTreeMap<(usize, SocketAddr), u64>,
+    /// every PeerAdded / PeerRemoved: (node, peer address, ms)
+    session_events: Vec<(usize, SocketAddr, u64)>,
+    /// crashes, stops and starts: (node, ms)
+    disturbed: Vec<(usize, u64)>,
 }
 
 struct FrameInfo {
@@ -138,6 +146,19 @@ struct FrameInfo {
     data: Vec<u8>,
     selected: Option<Vec<usize>>,
     hk_ran: bool,
+    read_ms: u64,
+    /// selected nodes with which the origin had a settled connection when the frame was read: (node, address of the
+    /// origin as that node sees it)
+    must: Vec<(usize, SocketAddr)>,
+}
+
+/// the address under which node `s`, reached at `a`, sees node `i`
+fn reverse_addr(w: &World, i: usize, a: SocketAddr) -> SocketAddr {
+    if w.second_addr.values().any(|x| *x == a) {
+        w.second_addr.get(&i).copied().unwrap_or(w.nodes[i].addr)
+    } else {
+        w.nodes[i].addr
+    }
 }
 
 fn range_key(r: &Range) -> (Vec<u8>, u8) {
@@ -179,6 +200,12 @@ impl Fw {
             (Some(a), Some(b)) => a.next_housekeep != b.next_housekeep,
             _ => false,
         };
+        // an interface read is handled before the housekeeping of the same step (which may remove peers)
+        if let StepKind::Frame { frame, .. } = st.kind {
+            if let (Some(pre), Some(post)) = (&pre, &post) {
+                self.check_frame_step(w, st, i, frame, pre, post, hk_ran, now)?;
+            }
+        }
         // announcements processed in this step
         for ev in &st.probes {
             match ev {
@@ -198,25 +225,44 @@ impl Fw {
                     w.count("fwd_announcements_processed");
                 }
                 Event::PeerRemoved { addr, .. } => {
+                    self.session_ms.remove(&(i, *addr));
+                    self.session_events.push((i, *addr, w.now_ms));
                     self.announced.remove(&(i, *addr));
                     self.ref_cache.retain(|k, e| !(k.0 == i && e.peer == *addr));
                     self.learned.retain(|k, e| !(k.0 == i && e.0 == *addr));
                 }
                 Event::PeerAdded { addr } => {
                     // a new handshake supersedes the old peer entry; its announcement follows in the same step
-                    let _ = addr;
+                    self.session_ms.insert((i, *addr), w.now_ms);
+                    self.session_events.push((i, *addr, w.now_ms));
                 }
                 _ => {}
+            }
+        }
+        // no amplification: a node never opens a second connection to a node it is already peered with because a
+        // third node announced it under another address (dials caused by a received message; reconnects to configured
+        // addresses happen in housekeeping and go by address)
+        if let (StepKind::Deliver { wire, .. }, Some(pre), Some(post), false) = (&st.kind, &pre, &post, hk_ran) {
+            let from = w.wire[*wire].src;
+            for (d, _) in &post.pending {
+                if *d == from || pre.pending.iter().any(|(a, _)| a == d) || pre.peers.iter().any(|p| p.addr == *d) {
+                    continue;
+                }
+                if let Some(m) = w.node_by_addr(*d) {
+                    let mid = w.current_node_id(m);
+                    // (a node that restarted has a new id; third nodes may still announce its old one)
+                    if m != i && mid.is_some() && w.nodes[m].node_ids.len() == 1 {
+                        if let Some(p) = pre.peers.iter().find(|p| Some(p.node_id) == mid && p.addr != *d) {
+                            return self.viol(w, Focus::C10, "no-amplification", "second-connection-to-peered-node", format!("n{} dials {} (n{}) on an announcement from {} although it is peered with that node under {}: every flooded frame would reach n{} twice", i, d, m, from, p.addr, m));
+                        }
+                    }
+                }
+                w.count("fwd_dials_on_announcement");
             }
         }
         // the event of a step is handled before the housekeeping of the same step: the event oracles use
         // the sweep time known before this step, the table oracle the one after it
         match st.kind {
-            StepKind::Frame { frame, .. } => {
-                if let (Some(pre), Some(post)) = (&pre, &post) {
-                    self.check_frame_step(w, st, i, frame, pre, post, hk_ran, now)?;
-                }
-            }
             StepKind::Deliver { wire, accepted: true, .. } => {
                 self.check_deliver_step(w, st, i, wire, &pre, hk_ran, now)?;
             }
@@ -353,6 +399,46 @@ impl Fw {
                     admissible.push(Some(*p));
                 }
             }
+            // the same decision judged against what the peers announced (not against what the table holds): a claim is
+            // live from its last announcement for one peer timeout; between its expiry and the next sweep both
+            // answers are accepted
+            let mut must: Vec<(Range, SocketAddr, i64)> = vec![];
+            let mut limbo: Vec<(Range, SocketAddr, i64)> = vec![];
+            for p in &pre.peers {
+                if let Some((ann, t_ann)) = self.announced.get(&(i, p.addr)) {
+                    let exp = *t_ann + self.peer_timeout;
+                    for (b, pl) in ann {
+                        let mut data = [0u8; 16];
+                        data[..b.len()].copy_from_slice(b);
+                        let r = Range { base: Address { data, len: b.len() as u8 }, prefix_len: *pl };
+                        if exp >= now {
+                            must.push((r, p.addr, exp));
+                        } else if exp >= self.last_hk[i] {
+                            limbo.push((r, p.addr, exp));
+                        }
+                    }
+                }
+            }
+            let (must_best, _) = ref_lpm(&must, &dst_b);
+            let mut adm_ann: Vec<Option<SocketAddr>> = admissible.iter().filter(|a| self.ref_cache.get(&key).map(|e| Some(e.peer) == **a).unwrap_or(false)).cloned().collect();
+            for (r, p, _) in must.iter().chain(limbo.iter()) {
+                if range_matches(&addr_bytes(&r.base), r.prefix_len, &dst_b) && must_best.map(|b| r.prefix_len >= b).unwrap_or(true) {
+                    adm_ann.push(Some(*p));
+                }
+            }
+            if must_best.is_none() {
+                adm_ann.push(None);
+            }
+            if !adm_ann.contains(&hop) {
+                let sig = if hop.is_none() { "announced-live-claim-not-used" } else { "claim-no-longer-announced-still-used" };
+                return self.viol(
+                    w,
+                    Focus::C11,
+                    "next-hop",
+                    sig,
+                    format!("n{} sends {:?} to {:?}; by the announcements of its peers admissible: {:?} (live {:?}, expired but unswept {:?}; table cache entry {:?}; now {}, last sweep {})", i, dst_b, hop, adm_ann, must.iter().map(|c| (format!("{}", c.0), c.1, c.2)).collect::<Vec<_>>(), limbo.iter().map(|c| (format!("{}", c.0), c.1, c.2)).collect::<Vec<_>>(), cached_real, now, self.last_hk[i]),
+                );
+            }
             w.count("c11_lookups_checked");
             if best.is_some() {
                 w.count("c11_lookups_with_match");
@@ -456,7 +542,23 @@ impl Fw {
             return self.viol(w, Focus::C10, "isolation", "interface-read-written-back", format!("n{} wrote {} frames to its own interface while handling an interface read", i, st.writes));
         }
         if let Some(m) = marker {
-            self.frames.insert(m, FrameInfo { origin: i, data: (*data).clone(), selected: Some(sel_nodes), hk_ran });
+            let mut must = vec![];
+            if self.lossless && !hk_ran {
+                for a in &selected {
+                    let sn = match w.node_by_addr(*a) {
+                        Some(sn) if w.is_up(sn) => sn,
+                        _ => continue,
+                    };
+                    let rev = reverse_addr(w, i, *a);
+                    if let (Some(t1), Some(t2)) = (self.session_ms.get(&(i, *a)), self.session_ms.get(&(sn, rev))) {
+                        let fresh = *t1 > self.started_ms[sn] && *t2 > self.started_ms[i] && *t1 >= self.started_ms[i] && *t2 >= self.started_ms[sn];
+                        if fresh && t1.max(t2) + 2_000 <= w.now_ms {
+                            must.push((sn, rev));
+                        }
+                    }
+                }
+            }
+            self.frames.insert(m, FrameInfo { origin: i, data: (*data).clone(), selected: Some(sel_nodes), hk_ran, read_ms: w.now_ms, must });
         }
         Ok(())
     }
@@ -533,7 +635,13 @@ impl Fw {
             }
             let mut dedup = got.clone();
             dedup.dedup();
-            if dedup.len() != got.len() {
+            // two connections between the same two nodes (a multi-homed node dialled under both addresses at the same
+            // time) are two peers: each gets the frame once
+            let twice_selected = |n: usize| info.selected.as_ref().map(|s| s.iter().filter(|x| **x == n).count()).unwrap_or(0);
+            let by_two_connections = got.iter().all(|g| got.iter().filter(|x| *x == g).count() <= twice_selected(*g).max(1));
+            if dedup.len() != got.len() && by_two_connections {
+                w.count("fwd_frames_delivered_over_two_connections");
+            } else if dedup.len() != got.len() {
                 return self.viol(w, Focus::C10, "exactly-once", "frame-delivered-twice", format!("frame {} read at n{} was delivered {:?}", m, info.origin, got));
             }
             if let Some(sel) = &info.selected {
@@ -551,6 +659,23 @@ impl Fw {
                         if w.counters.get("fwd_membership_changes").copied().unwrap_or(0) == 0 && w.counters.get("fwd_rotation_or_replay_loss").copied().unwrap_or(0) == 0 {
                             return self.viol(w, Focus::C10, "exactly-once", "frame-not-delivered-to-selected-peer", format!("frame {} read at n{} selected {:?} but was delivered only at {:?} on a loss-free network with stable membership", m, info.origin, sel, got));
                         }
+                    }
+                }
+            }
+            // a peer with a settled connection (both ends added each other after their last start, two seconds or more
+            // before the frame was read) that stayed up and kept the connection gets the frame on a loss-free network
+            let end_ms = w.now_ms;
+            if self.lossless && info.read_ms + 1_000 <= end_ms {
+                for (sn, rev) in &info.must {
+                    let lo = info.read_ms;
+                    let hi = info.read_ms + 1_000;
+                    let disturbed = self.disturbed.iter().any(|(n, t)| n == sn && *t >= lo && *t <= hi) || self.session_events.iter().any(|(n, a, t)| n == sn && a == rev && *t >= lo && *t <= hi);
+                    if disturbed {
+                        continue;
+                    }
+                    w.count("c10_settled_deliveries_checked");
+                    if !got.contains(sn) {
+                        return self.viol(w, Focus::C10, "exactly-once", "frame-not-delivered-over-settled-connection", format!("frame {} read at n{} at t={:.3}s was sent to n{} - both had added each other as peers since their last start, more than 2 s before, and n{} stayed up and kept the peer - but it was never written to n{}'s interface", m, info.origin, info.read_ms as f64 / 1000.0, sn, sn, sn));
                     }
                 }
             }
@@ -698,6 +823,17 @@ pub fn scenario(w: &mut World, ctx: &RunCtx, focus: Focus, states: &mut Vec<u64>
     let switch_timeout = *w.ch.pick("switch_timeout", &[300u32, 5, 30, 2]);
     let peer_timeout = *w.ch.pick("peer_timeout", &[300u32, 120, 150]);
     let plain = w.ch.chance("plain", 100);
+    // multi-homed nodes: every node has an address in a second network, and some configured peers are dialled there
+    let multi = n >= 3 && w.ch.chance("multi_homed", 250);
+    let second = |i: usize| -> SocketAddr {
+        match fam {
+            0 => SocketAddr::new(std::net::IpAddr::V6(std::net::Ipv6Addr::new(0xfd00, 2, 0, 0, 0, 0, 0, 1 + i as u16)), 3210),
+            _ => SocketAddr::new(std::net::IpAddr::V4(std::net::Ipv4Addr::new(10, 0, 2, 1 + i as u8)), 3210),
+        }
+    };
+    if multi {
+        w.count("fwd_multi_homed_meshes");
+    }
     for i in 0..n {
         let mut c = if tap { mesh::tap_node(i) } else { mesh::tun_node(i) };
         c.key = k;
@@ -710,9 +846,16 @@ pub fn scenario(w: &mut World, ctx: &RunCtx, focus: Focus, states: &mut Vec<u64>
             c.algorithms = vec!["plain".into()];
         }
         for j in 0..i {
-            c.peers.push(mesh::node_text(j, fam));
+            if multi && w.ch.chance("dial_second_network", 400) {
+                c.peers.push(super::world::addr_text(second(j)));
+            } else {
+                c.peers.push(mesh::node_text(j, fam));
+            }
         }
         w.add_node(c, fam);
+        if multi {
+            w.set_second_addr(i, second(i));
+        }
     }
     w.count(match (tap, mode) {
         (false, Mode::Router) => "fwd_shape_tun_router",
@@ -739,6 +882,10 @@ pub fn scenario(w: &mut World, ctx: &RunCtx, focus: Focus, states: &mut Vec<u64>
         counter: 0,
         foreign: 0,
         lossless: true,
+        started_ms: vec![0; n],
+        session_ms: BTreeMap::new(),
+        session_events: vec![],
+        disturbed: vec![],
     };
     for i in 0..n {
         let st = w.start_node(i);
@@ -833,6 +980,7 @@ pub fn scenario(w: &mut World, ctx: &RunCtx, focus: Focus, states: &mut Vec<u64>
                     0 => {
                         // restart on the same address with a different claim set
                         if w.is_up(who) {
+                            fw.disturbed.push((who, w.now_ms));
                             if w.ch.chance("graceful", 500) {
                                 if let Some(st) = w.stop_node(who) {
                                     fw.after_step(w, &st)?;
@@ -862,12 +1010,16 @@ pub fn scenario(w: &mut World, ctx: &RunCtx, focus: Focus, states: &mut Vec<u64>
                         }
                         fw.ref_cache.retain(|k, _| k.0 != who);
                         fw.learned.retain(|k, _| k.0 != who);
+                        fw.disturbed.push((who, w.now_ms));
+                        fw.started_ms[who] = w.now_ms;
+                        fw.session_ms.retain(|k, _| k.0 != who);
                         let st = w.start_node(who);
                         fw.after_step(w, &st)?;
                         w.count("fwd_restarts");
                     }
                     1 => {
                         // graceful stop (CLOSE), stays down for a while
+                        fw.disturbed.push((who, w.now_ms));
                         if let Some(st) = w.stop_node(who) {
                             fw.after_step(w, &st)?;
                             w.count("fwd_graceful_stops");
@@ -876,6 +1028,7 @@ pub fn scenario(w: &mut World, ctx: &RunCtx, focus: Focus, states: &mut Vec<u64>
                     2 => {
                         // goes silent: crash without CLOSE
                         if w.is_up(who) {
+                            fw.disturbed.push((who, w.now_ms));
                             w.crash_node(who);
                             w.count("fwd_crashes");
                         }
@@ -901,7 +1054,7 @@ pub fn scenario(w: &mut World, ctx: &RunCtx, focus: Focus, states: &mut Vec<u64>
     }
     // drain
     w.heal_all();
-    let until = w.now_ms + 300;
+    let until = w.now_ms + 1_100;
     let mut r = Ok(());
     while let Some(st) = w.step(until) {
         r = fw.after_step(w, &st);
